@@ -71,6 +71,7 @@ fn emit_argv_builders(file: &syn::File, which: &[(&str, &str, &str)], v: &mut St
         variants: vec![("Always", "PullAlways"), ("IfNotPresent", "PullIfNotPresent"), ("Never", "PullNever"), ("Id", "BpId"), ("Path", "BpPath")],
         eq: "beq",
         take_default: "(@nil N)",
+        mcalls: vec![],
         display: vec![("port", "(show_port {v})"), ("docker_port_command_port", "(show_port {v})")],
     };
     for (ty, name, params) in which {
